@@ -110,7 +110,7 @@ PROPS["C15"] = dict(
     technique="conformance by construction from an independent XML walk of the dictionaries (rapid + enumeration of every message type), then single-defect mutation testing against a reject-reason table, under all 32 validator settings",
     stages=[dict(name="rapid", kind="rapid", run="^TestC15_Rapid$", checks=(2500, 40000), shards=(12, 16), timeout=(400, 2400)),
             dict(name="enumerate", kind="plain", run="^TestC15_Enumerate$", shards=(12, 16), timeout=(600, 3000))],
-    require=["conforming:FIX40", "conforming:FIX44", "conforming:FIX50SP2", "conforming:FIXT11", "conforming:with-group", "mutation:missing-required-top",
+    require=["conforming:FIX40", "conforming:FIX44", "conforming:FIX50SP2", "conforming:FIXT11", "conforming:with-group", "mutation:missing-required-top", "mutation:duplicate-tolerated-unknown", "mutation:duplicate-tolerated-user",
              "mutation:undefined-known", "mutation:enum", "mutation:count+1", "mutation:swap-members", "mutation:duplicate", "mutation:header-in-body"],
     assumptions=["conforming messages list members in declaration order; a scalar whose tag is also defined inside a group of the same level is not generated",
                  "multi-valued fields are generated single-valued",
@@ -157,7 +157,7 @@ PROPS["C06"] = dict(
     technique="rapid-generated header-defect matrix delivered in every logged-on state; reactions compared with an independent decision table written from the statement, callbacks checked against the gate recomputed from the inbound bytes",
     level_note=SESSION_NOTE,
     stages=[dict(name="rapid", kind="rapid", run="^TestC06_Rapid$", checks=(3000, 60000), shards=(12, 16), timeout=(600, 3000))],
-    require=["state:normal", "state:recovering", "state:pending", "state:pending+recovering", "state:logon", "defects:control", "multi-defect"],
+    require=["state:normal", "state:recovering", "state:pending", "state:pending+recovering", "state:logon", "defects:control", "multi-defect", "follow-up:gap-filled", "follow-up:kept-message-delivered"],
     assumptions=["SendingTime values are placed at least 30 s away from the latency window edge, so the verdict does not depend on the run time",
                  "whether a plain Reject advances the expected number is not fixed by the statement and not asserted",
                  "time defects are not judged when CheckLatency=N (the statement conditions them on checking being enabled)"],
@@ -228,11 +228,13 @@ PROPS["C05"] = dict(
 
 PROPS["C02"] = dict(
     pkg="./props/session", level="exploration", design_ref="DESIGN.md §3 C02",
-    technique="rapid-generated concurrent send plans executed by real goroutines against a harness-played run loop, with generated pauses inside the engine's locks; oracle = invariants over the stamped wire log and stamped store-save log",
+    technique="rapid-generated concurrent send plans executed by real goroutines against a harness-played run loop, with generated pauses inside the engine's locks; oracle = invariants over the stamped wire log and stamped store-save log; plus a sequential rapid state machine over connections, store resets (configured, negotiated, or requested by the application through ResetSeqNumFlag set in ToAdmin) and restarts, oracle = a counter model of the numbers handed out checked against every save, every first-time frame and the store's answers",
     level_note=SESSION_NOTE + " Real thread interleavings are sampled with generated perturbation, not enumerated: this is the property the technique decides most weakly; a failing schedule may not replay deterministically, so the full stamped history is the replay artefact.",
     stages=[dict(name="rapid", kind="rapid", run="^TestC02_Rapid$", checks=(250, 6000), shards=(12, 16), timeout=(600, 3000)),
+            dict(name="epochs", kind="rapid", run="^TestC02_Epochs$", checks=(1500, 60000), shards=(8, 16), timeout=(600, 3000)),
             dict(name="race-perturbed", kind="rapid", run="^TestC02_Rapid$", checks=(0, 400), shards=(0, 16), timeout=(0, 1500), thorough_only=True, race=True, ignore_unclassified=True)],
-    require=["store:memory", "store:file", "store:sql", "replay-overlapping-sends", "engine-traffic-overlapping-sends"],
+    require=["store:memory", "store:file", "store:sql", "replay-overlapping-sends", "engine-traffic-overlapping-sends",
+             "epochs:application-reset-at-non-initial-number", "epochs:restart", "epochs:replay"],
     assumptions=["the run-loop entry points are called from one goroutine (as the run loop does), sends from others (as SendToTarget allows)",
                  "schedules are sampled; absence of a violation is weaker evidence here than for the sequential properties"],
 )
